@@ -222,11 +222,30 @@ func setupC13(x *Ctx) {
 		if cause == "local" {
 			bound = lcReturned
 		}
+		late := 0
+		var boundEv Event
+		for _, e := range evs {
+			if e.Seq == bound {
+				boundEv = e
+			}
+		}
 		for _, e := range evs {
 			if e.Kind == "recv" && bound >= 0 && e.Seq > bound {
-				x.Violate("delivery-after-close", cause, fmt.Sprintf("%s: message %d handed to the SHIP layer after the connection end was known", variant, e.N))
-				return
+				late++
+				// one message may be in flight through the read pump (it passed the
+				// closed-check) while the other pump reports the error at that instant
+				discr := cause
+				if late == 1 && cause != "local" && e.Task != boundEv.Task && e.T == boundEv.T {
+					discr = "in-flight-in-read-pump-while-write-pump-reports"
+				}
+				x.Violate("delivery-after-close", discr, fmt.Sprintf("%s: message %d handed to the SHIP layer (by %s) after the connection end was known (reported by %s)", variant, e.N, e.Task, boundEv.Task))
+				if late > 1 {
+					return
+				}
 			}
+		}
+		if late > 0 {
+			return
 		}
 		if alive := wsTasksAlive(x); len(alive) > 0 {
 			x.Violate("pump-not-terminated", cause, fmt.Sprintf("%s: 75 simulated s after the end these ws goroutines still run: %v", variant, alive))
